@@ -142,3 +142,18 @@ def pick_block_mem(src_fn, ref_fn, proc_crs, target_blocks, kernel_shape=(5, 5),
             if t <= 1:
                 raise
             t = max(1, t // 2)
+
+
+def workable_pair(work, rng, geom_fn, kernel_shape=(5, 5), target_blocks=4, proc_crs='auto', tag='p', tries=30, **pair_kw):
+    """Draw geometries until block_pairs accepts the kernel's overlap; returns (geom, pair, max_block_mem, blocks)."""
+    from homonim import errors
+    last = None
+    for _ in range(tries):
+        g = geom_fn(rng)
+        pair = make_pair(work, g, rng, tag=tag, **pair_kw)
+        try:
+            mbm, n = pick_block_mem(pair['src_fn'], pair['ref_fn'], proc_crs, target_blocks, kernel_shape)
+            return g, pair, mbm, n
+        except (errors.BlockSizeError, errors.ImageContentError) as ex:
+            last = ex
+    raise RuntimeError(f'no workable geometry in {tries} tries: {last}')
